@@ -1381,6 +1381,7 @@ package reftable
 //@   modifies nothing
 //@   ensures result1 == nil ==> result0 != nil && fresh(result0) && wOK(result0)
 //@   ensures[block-size-fits-24-bits] result1 == nil ==> result0.cfg.BlockSize < 16777216
+//@   ensures[config-taken-over] result1 == nil ==> result0.cfg.ExactLogMessage == cfg.ExactLogMessage && result0.cfg.Unaligned == cfg.Unaligned && result0.cfg.HashID == cfg.HashID && result0.cfg.SkipIndexObjects == cfg.SkipIndexObjects && result0.cfg.BlockSize == (cfg.BlockSize == 0 ? 4096 : cfg.BlockSize) && result0.cfg.RestartInterval == (cfg.RestartInterval == 0 ? 16 : cfg.RestartInterval)
 //@   ensures result1 != nil ==> result0 == nil
 
 //@ func (*Writer).newBlockWriter
@@ -1630,6 +1631,7 @@ package reftable
 //@ func (*Stack).writeCompact
 //@   props C07 C13
 //@   requires wfStack(st) && wOK(wr) && 0 <= first && first <= last && last < len(st.stack)
+//@   requires[compacted-table-is-written-with-the-stack-configuration] wr.cfg.ExactLogMessage == st.cfg.ExactLogMessage && wr.cfg.HashID == st.cfg.HashID && wr.cfg.Unaligned == st.cfg.Unaligned && wr.cfg.SkipIndexObjects == st.cfg.SkipIndexObjects && wr.cfg.BlockSize == (st.cfg.BlockSize == 0 ? 4096 : st.cfg.BlockSize)
 //@   callsite (*Merged).SeekLog 1 ghost afterRefs = 1
 //@   ensures[all-records-visited] result == nil ==> logsDone
 //@   sets mergedFirst = first
